@@ -546,8 +546,6 @@ REGRESSION = [
     ("foobar", [((3, 3), "[", "]"), ((3, 5), "{", "}")], {"source_text": "fooXYZbar"}),
     ("", [((0, 0), "[", "]")], {"source_text": "x"}),
     ("<i>a<b>x</b>c</i>", [((4, 12), "[", "]"), ((12, 17), "{", "}")], {"unbalanced_tags": "skip"}),
-    ("See <i>Id. 5; id.</i> at 7.", [((7, 12), "[", "]"), ((14, 26), "{", "}")], {"unbalanced_tags": "skip"}),
-    ("foo bar baz qux", [((4, 4), "[", "]"), ((7, 7), "{", "}"), ((11, 11), "(", ")")], {"source_text": "foo <i>bar</i> baz  qux"}),
 ]
 
 
